@@ -111,6 +111,34 @@ class Analysis:
             return max(oracle.opt_total(c, opt1="max", opt2="max")["v"])
         return self._get(("rmax", prune), compute)
 
+    def rmax_tolerant(self, prune, tol=F(3, 2 * 10 ** 6)):
+        """Like rmax_solve, but Player 1 may also use actions whose exact value is within 1.5e-6 of the best: the solver compares
+        reachability values after rounding to 6 digits, so its own restricted game can contain such actions (a SUPER-game of the
+        exact conditioned game).  None if that game is not stopping (no finite bound exists)."""
+        def compute():
+            g = self.g
+            v = self.reach["v"]
+            tl = []
+            for s in range(g.n):
+                tr = g.tl[s]
+                if g.players[s] == P1 and tr:
+                    opt = max(v[t] for _, t in tr)
+                    tl.append([(a, t) for a, t in tr if v[t] >= opt - tol and not (prune and v[t] == 0)])
+                elif g.players[s] == PR and prune:
+                    live = [(p, t) for p, t in tr if v[t] != 0]
+                    if len(live) != len(tr):
+                        tot = sum(p for p, _ in live)
+                        if tot != 0:
+                            live = [(p / tot, t) for p, t in live]
+                    tl.append(live)
+                else:
+                    tl.append(list(tr))
+            c = oracle.Game(g.players, tl, g.finals, g.rewards)
+            if not oracle.is_stopping(c)[0]:
+                return None
+            return max(oracle.opt_total(c, opt1="max", opt2="max")["v"])
+        return self._get(("rmaxtol", prune), compute)
+
     def reach_T(self, x):
         """Per-state bound T(s) with v*(s)-x(s) <= delta*T(s): T_max in stopping games, otherwise the
         expected number of steps in W minus finals of the chain (sigma*, tau_x); None if unavailable."""
@@ -249,6 +277,41 @@ class Conditioned:
     @property
     def tmax(self):
         return self._get("tmax", lambda: [float(t) for t in oracle.expected_steps_max(self.g)])
+
+
+def near_tie_cycle(an, gd, unpruned_res):
+    """Mechanism of the open finding 'near-tie-closes-cycle' (C06): the reported reachability strategy of some Player-1 state lists
+    an action that is strictly worse than the best one, because the two reported values fall into the same 6-digit rounding cell
+    (the resolution at which the solver compares them); with that action kept, pruning the dead branches leaves a game that is no
+    longer stopping (a probability-1 cycle), on which the reward iteration cannot converge.
+    -> witness dict if all of that holds for this game, else None.  unpruned_res: any tuple whose [1] / [3] are the reachability
+    strategies / probabilities the solver reported (a finished unpruned solve, or the record of the pruning-step hook)."""
+    strat, x = unpruned_res[1], unpruned_res[3]
+    v = an.reach["v"]
+    extra = []
+    for s in range(an.n):
+        if gd["players"][s] != P1 or not isinstance(strat[s], list):
+            continue
+        tr = gd["transition_list"][s]
+        best = max(v[t] for _, t in tr)
+        top_cell = max(round(x[t], DIGITS) for _, t in tr)
+        for a, t in tr:
+            if a in strat[s] and v[t] < best:
+                if round(x[t], DIGITS) != top_cell or float(best - v[t]) > 1.5e-6:
+                    return None                       # listed although visibly worse: not this mechanism
+                extra.append({"state": s, "action": a, "exact_gap": float(best - v[t]), "reported": x[t]})
+    if not extra:
+        return None
+    cond = Conditioned(gd, unpruned_res, True)
+    try:
+        if cond.stopping:
+            return None
+        exact = an.exact_conditioned(True)
+        if not oracle.is_stopping(exact)[0]:
+            return None
+    except OracleInconclusive:
+        return None
+    return {"near_tied_actions": extra[:3]}
 
 
 def bellman_residuals(cond, rew):
